@@ -222,6 +222,16 @@ fn tie(args: &Args, report: &mut Report, rng: &mut Rng, inputs: &[(String, Strin
     }
 }
 
+/// predicate names for the known C05 findings (computed from the input only)
+pub fn classify5(text: &str) -> Option<&'static str> {
+    use emmylua_parser::{LuaParseErrorKind, LuaParser, ParserConfig};
+    let tree = LuaParser::parse(text, ParserConfig::with_level(LEVEL));
+    if !tree.has_syntax_errors() && tree.get_errors().iter().any(|e| e.kind == LuaParseErrorKind::DocError) {
+        return Some("input-has-doc-annotation-syntax-error");
+    }
+    classify(text)
+}
+
 /// predicate names (computed from the input and the configuration only) for the known C06 findings
 pub fn classify6(text: &str, cfg: &LuaFormatConfig) -> Option<&'static str> {
     use emmylua_parser::{LuaKind, LuaParser, LuaSyntaxKind, LuaTokenKind, ParserConfig};
@@ -260,8 +270,13 @@ pub fn classify6(text: &str, cfg: &LuaFormatConfig) -> Option<&'static str> {
     let mut wide = cfg.clone();
     wide.layout.max_line_width = 1_000_000;
     let src = SourceText { text, level: LEVEL };
-    if reformat_lua_code(&src, cfg) != reformat_lua_code(&src, &wide) {
+    let first = reformat_lua_code(&src, cfg);
+    if first != reformat_lua_code(&src, &wide) {
         return Some("line-width-limit-forces-line-breaks");
+    }
+    // the first pass leaves a line longer than the limit (it is re-broken by the next pass)
+    if first.lines().any(|l| l.len() > cfg.layout.max_line_width) {
+        return Some("formatted-output-exceeds-line-width");
     }
     None
 }
@@ -328,7 +343,7 @@ pub fn run(args: &Args, report: &mut Report) {
         let cfg = cfgs.iter().find(|c| c.0 == cname).map(|c| c.1.clone()).unwrap_or_default();
         let (f5, f6) = check_format(&text, &cfg, report);
         if let Some(what) = if want6 { f6 } else { f5 } {
-            report.oracle_failure(json!({"input": inp, "what": what, "class": classify(&text)}));
+            report.oracle_failure(json!({"input": inp, "what": what, "class": if want6 { classify6(&text, &cfg) } else { classify5(&text) }}));
         }
         return;
     }
@@ -372,8 +387,12 @@ pub fn run(args: &Args, report: &mut Report) {
                 if let Some(c) = classify6(text, cfg) { report.count(&format!("class_{c}")); } else { report.count("class_none"); }
             }
             if let Some(what) = if want6 { f6 } else { f5 } {
-                let class = if want6 { classify6(text, cfg) } else { classify(text) };
-                report.oracle_failure(json!({"input": {"kind": "format", "source": name, "text": text, "config": cname}, "what": what, "class": class}));
+                let class = if want6 { classify6(text, cfg) } else { classify5(text) };
+                // list at most a few failures per known class so that the report's cap can never hide an unclassified one
+                let listed = class.map(|c| { let k = format!("failures_in_class_{c}"); report.count(&k); report.distribution[&k] }).unwrap_or(0);
+                if listed <= 4 {
+                    report.oracle_failure(json!({"input": {"kind": "format", "source": name, "text": text, "config": cname}, "what": what, "class": class}));
+                }
             }
         }
         if i == 12 {
@@ -396,7 +415,11 @@ pub fn run(args: &Args, report: &mut Report) {
         report.evaluations += 1;
         let (f5, f6) = check_format(&t, &cfgs[i % cfgs.len()].1, report);
         if let Some(what) = if want6 { f6 } else { f5 } {
-            report.oracle_failure(json!({"input": {"kind": "format", "source": "mutated", "text": t, "config": cfgs[i % cfgs.len()].0}, "what": what, "class": if want6 { classify6(&t, &cfgs[i % cfgs.len()].1) } else { classify(&t) }}));
+            let class = if want6 { classify6(&t, &cfgs[i % cfgs.len()].1) } else { classify5(&t) };
+            let listed = class.map(|c| { let k = format!("failures_in_class_{c}"); report.count(&k); report.distribution[&k] }).unwrap_or(0);
+            if listed <= 4 {
+                report.oracle_failure(json!({"input": {"kind": "format", "source": "mutated", "text": t, "config": cfgs[i % cfgs.len()].0}, "what": what, "class": class}));
+            }
         }
     }
     report.rule = "tie: IRs dumped from formatting the inputs (hook format_to_ir) and seeded random IRs over all node kinds x configurations (incl. narrow widths, comment columns), model printer vs real printer byte for byte; non-trivial = IR containing a group, fill or align group, distinct by request. oracle: hand-written corpus + grammar-generated valid Lua (messy layout, comments, doc tags) + the std library annotation files (whole and by paragraphs) + inputs with syntax errors (hand-written and one-byte deletions) x formatter configurations; non-trivial = input with >= 2 lines, distinct by (input, config)".into();
